@@ -1416,9 +1416,15 @@ protected:
   /// @return constraint index, or -1
   template <class Constraint>
   int MapFind__Impl(const Constraint& con) {
-    const auto& map = GET_CONST_CONSTRAINT_MAP(Constraint);
+    auto& map = GET_CONSTRAINT_MAP(Constraint);
     auto it = map.find( con );
-    return (map.end() != it) ? it->second : -1;
+    if (map.end() == it)
+      return -1;
+    if (GET_CONSTRAINT_KEEPER(Constraint).IsUnused(it->second)) {
+      map.erase(it);          // eliminated, will not reach the solver
+      return -1;
+    }
+    return it->second;
   }
 
   /// MapInsert__Impl.
